@@ -24,9 +24,13 @@ case = {
                                          concatenated archives).  part = a piece as in "gen", or
                                          ["archive", [member, ...]] / ["archive", [member, ...], final_pad]:
                                          a whole ar archive of these members written by the harness writer
+  "then":    [{"members": [member, ...], "final_pad": bool, "how": "unlink" | "rename" | "rewrite"}, ...],
+                                         optional, harness writer only, at most 4: other archives that take the
+                                         place of the first one, one per "replace" operation, see there
   "ops":     [op, ...]                   the history; member indices are taken modulo the number of
-                                         live member objects: len(members) x (1 + reopens so far),
-                                         numbered ArFile by ArFile in order of opening
+                                         live member objects, numbered ArFile by ArFile in order of opening:
+                                         the members of every ArFile opened so far (first one, reopens, replaces),
+                                         in filename mode without those whose file a "replace" has taken away
 }
 op = ["read", i]            m.read()                 ["read", i, n]      m.read(n), n >= 1
      ["readline", i]        m.readline()             ["readline", i, n]  m.readline(n), n >= 0
@@ -41,6 +45,19 @@ op = ["read", i]            m.read()                 ["read", i, n]      m.read(
                             header again).  Its listing is checked like the first one's, its members
                             start at position 0 and join the live member objects, each with a shadow
                             of its own.  At most 3 per history (further ones are skipped).
+     ["replace"]            the next archive of "then" takes the place of the archive under test and a further
+                            ArFile is opened on it, while every object made so far stays alive, members read
+                            partly and not closed included.  filename mode: the file at the same path is
+                            replaced ("how": "unlink" = removed and a new file written under the name, the
+                            default; "rename" = the new archive is written next to it and moved over it;
+                            "rewrite" = the same file is truncated and written anew) and ArFile(filename=the
+                            same path) opened; the member objects of all earlier ArFiles leave the live ones -
+                            their file is gone, they are not used and not asked anything any more.  fileobj mode:
+                            ArFile(fileobj=a new BytesIO holding "before" + the new archive); the earlier objects
+                            keep their own untouched file objects, stay live and in use next to the new ones.
+                            The new listing is checked against the new archive, the new members start at 0 and
+                            have shadows over the new archive's bytes; a later "reopen" opens the archive then
+                            in place.  Skipped when "then" is used up.
      ["seek", i, whence, target]   m.seek(target - base, whence) with base = 0 | current position |
                                    member size: *target* >= 0 is the absolute position aimed at, so
                                    every generated seek has a non-negative target by construction.
@@ -64,8 +81,13 @@ RULE = ("cases are (open mode, 0..5 members with name/style/binary data/metadata
         "odd-sized last member present or absent, in fileobj mode optionally bytes / whole archives that precede "
         "the archive in the file object (which is handed over positioned on the archive's global header), "
         "history of 1..25 "
-        "read/read(n)/readline/readline(n)/readlines/readlines(hint)/seek/tell/close/reopen operations "
-        "interleaved over all members; hint = None, 0, negative or positive); reopen opens a further ArFile on the same archive (same path / same bytes) while the earlier "
+        "read/read(n)/readline/readline(n)/readlines/readlines(hint)/seek/tell/close/reopen/replace operations "
+        "interleaved over all members; hint = None, 0, negative or positive; 0..4 further archives that take the "
+        "place of the first one, one per replace); replace puts the next archive at the same path (unlink + "
+        "write / rename over it / rewrite in place) or into a further file object and opens an ArFile on it while "
+        "all earlier objects are alive (members never read, read partly and not closed, closed): the new listing "
+        "and every read of the new members must show the new archive; in filename mode the earlier objects are "
+        "not used after their file is gone, in fileobj mode they stay in use beside the new ones; reopen opens a further ArFile on the same archive (same path / same bytes) while the earlier "
         "ones stay in use, and its members join the history; after every step the returned value and the tell() "
         "of *every* member object of *every* ArFile are compared with an io.BytesIO shadow per member object. "
         "Enumerated: every history of <=3 operations (thorough: "
@@ -73,7 +95,7 @@ RULE = ("cases are (open mode, 0..5 members with name/style/binary data/metadata
         "contents, both open modes (filename mode one operation shorter); every history of <=3 steps with "
         "exactly one reopen (quick: 4 contents, filename mode without the shapes Roo/ooR); big members: for "
         "each power of two B from 4 KiB to 1 MiB, 11 first-member contents of 1..3.25 B bytes, written as "
-        "lit/repeat/noise/line pieces and expanded in the check, x 12 fixed histories (2 of them readlines with size hints around B) x both open modes, and, for "
+        "lit/repeat/noise/line pieces and expanded in the check, x 13 fixed histories (2 of them readlines with size hints around B, 1 with the archive replaced twice) x both open modes, and, for "
         "the odd-sized ones, the big member as the last of the archive with the file ending at its last byte x 5 "
         "of the histories; no-final-pad: 15 small archives ending in an odd-sized member, written without the "
         "final pad byte, x every history of <=2 operations, with and without a second ArFile (quick, filename mode: "
@@ -84,17 +106,28 @@ RULE = ("cases are (open mode, 0..5 members with name/style/binary data/metadata
         "with and without pad byte / with the same member names, a mix) and 18 big ones (B, B+1 bytes for each "
         "power of two B from 4 KiB to 1 MiB) x 4 (big: 2) archives x every history of <=2 operations, with and "
         "without a second ArFile (thorough: <=3), from the 14-operation alphabet; "
+        "replaced-archive: archive ['a\\nb', 'x\\ny'] x 4 replacing archives (same names and sizes with other "
+        "bytes; one 1-byte member; longer first member; 3 members of other names) x every history with <=1 "
+        "operation before and after the replacement from the 14-operation alphabet, both open modes; rename / "
+        "rewrite-in-place and 2 operations before or after it over read(1)/readline()/close(); the chain first -> "
+        "other bytes -> first again with operations between the replacements and with a second ArFile before / "
+        "after the replacement (thorough: the 14 operations x all 3 ways, 2 operations before / after); "
+        "big-members also has 1 history in which the archive is replaced twice (same sizes with other bytes, then "
+        "the members in the other order) after the big member was read up to a block end; "
         "header-columns: mtime/uid/gid/mode at every width up to the full column; close-x-siblings: every "
         "history of 4 operations from read(1)/readline()/close() on 2 members (thorough: 4..6, and after a "
         "reopen). "
         "Generated: Hypothesis archives x histories (members <=64 bytes; the final pad byte is left out in half of "
         "the archives that end in an odd-sized member; in half of the fileobj cases the archive is preceded by 1..2 "
-        "parts, each <=64 bytes or an archive of 0..2 members; readlines hints None, 0, -50..-1, 1..45); "
+        "parts, each <=64 bytes or an archive of 0..2 members; readlines hints None, 0, -50..-1, 1..45; in half of "
+        "the cases 1..2 replacing archives, each drawn afresh (0..3 members) or the one before it with all names "
+        "and sizes kept and every byte changed, replaced in one of the 3 ways); "
         "Hypothesis big members (1..4 pieces "
         "with sizes k*2**e+d, e = 12..20, k = 1..3, d = -3..3, <=3.5 MiB) x histories of <=12 operations whose "
         "read/readline sizes, readlines hints (both signs), seek targets and preamble sizes are drawn from the "
-        "same k*2**e+d family; thorough also builds "
-        "the archive with binutils ar. Non-trivial = >=2 members and (a readline/readlines call that "
+        "same k*2**e+d family, in half of the cases with 1..2 replacing archives (0..2 small or big members, or the "
+        "same sizes with other bytes); thorough also builds "
+        "the archive with binutils ar. Non-trivial = >=2 members (in the archive under test or one that replaces it) and (a readline/readlines call that "
         "has to return the unterminated last line of its member, or a read-family call that starts "
         "at a position beyond the member's end); distinct = distinct canonical JSON of the case")
 ASSUMPTIONS = [
@@ -119,6 +152,16 @@ ASSUMPTIONS = [
     "another reader of the same bytes: its members are files of their own, starting at 0 (fileobj mode "
     "gives it a BytesIO of its own over the same bytes - the harness never moves a file object it has "
     "handed to the library)",
+    "'re-opening by file name' includes the file name that by then holds another archive: after the file at the "
+    "path has been replaced (removed and written anew, renamed over, or truncated and rewritten - with closed "
+    "handles of the harness, before ArFile is called), ArFile(filename=path) and its members are views of the "
+    "archive now in the file, whatever objects made from the earlier contents are still alive. Those earlier "
+    "objects are views of a file that no longer exists under that name; the statement says nothing about them, "
+    "so they are neither used nor asked for tell() after the replacement (only closed when the case ends). In "
+    "fileobj mode a replacing archive lives in a file object of its own, the earlier file objects are untouched "
+    "and their members stay under the full oracle",
+    "the per-case directory of filename mode is made under /dev/shm when that exists and TMPDIR is unset "
+    "(tmpfs; the disk's unlink/rmdir dominated the run time), else under tempfile's default",
     "big contents come from vcheck/gen/c06_archives.expand_pieces: hashlib.shake_256 of a small integer for "
     "'noise' (and with \\n mapped to \\r for 'line'), bytes repetition for 'repeat'; members above "
     "1 MiB occur only in the big-members sources (a few hundred enumerated and a few generated cases per run)",
@@ -141,17 +184,34 @@ EXHAUSTIVE_REOPEN = {
 }
 EXHAUSTIVE_BIG = ("for every block size B = 2**12 .. 2**20: 11 contents of a first member of 1..3.25 B bytes (one "
                   "line without end, a line of 3 B inside short ones, a line of 1.25 B, arbitrary bytes, short "
-                  "lines filling exactly B / 2B or ending 1..3 bytes past / 1 byte before a multiple of B) x 12 "
+                  "lines filling exactly B / 2B or ending 1..3 bytes past / 1 byte before a multiple of B) x 13 "
                   "fixed histories (readlines from the start, after a seek, after read(B+1), after readline(B+5); "
                   "read()/readline loops; a second ArFile; readlines with the size hints B, B+1, 2, -1 and 1, 2B-1, "
-                  "None, 0) x both open modes; for the contents of odd size also the "
+                  "None, 0; read(B), then the archive replaced by one with the same sizes and other bytes, read(B+1) / "
+                  "readlines there, replaced again by the members in the other order) x both open modes; for the "
+                  "contents of odd size also the "
                   "archive [small member, big member] whose file ends with the big member's last byte (no final "
                   "pad byte) x 5 of these histories x both open modes")
 BUDGET = {"quick": 200, "thorough": 1500}
 
 MAX_MEMBER_SIZE = 8 << 20     # replay files only: generated members stay below 4 MiB
 MAX_REOPENS = 3
+MAX_REPLACES = 4              # len(case["then"])
+HOWS = ("unlink", "rename", "rewrite")      # how the file of filename mode is replaced, see the docstring
 MAX_HINT = 1 << 31            # readlines(h): |h| stays far inside what io.BytesIO accepts (a C ssize_t)
+
+
+
+def _scratch_parent():
+    """Memory-backed directory for the per-case mkdtemp() when there is one (metadata operations on
+    the disk dominate the run time of the filename cases otherwise); None = tempfile's default."""
+    if os.environ.get("TMPDIR"):
+        return None
+    d = "/dev/shm"
+    return d if os.path.isdir(d) and os.access(d, os.W_OK | os.X_OK) else None
+
+
+SCRATCH = _scratch_parent()
 
 NAME_ALPHABET = "abcdefghijklmnopqrstuvwxyzABCDEFGHIJKLMNOPQRSTUVWXYZ0123456789._+-"
 
@@ -182,7 +242,7 @@ def _valid_member(m):
 
 
 def _valid_op(op):
-    if op == ["reopen"]:
+    if op == ["reopen"] or op == ["replace"]:
         return True
     if not isinstance(op, list) or len(op) < 2 or not isinstance(op[1], int) or op[1] < 0:
         return False
@@ -220,9 +280,21 @@ def _valid_before(parts):
     return total <= MAX_MEMBER_SIZE
 
 
+def _valid_then(then):
+    """The optional "then" key: the archives that take the place of the first one, in this order."""
+    return (isinstance(then, list) and len(then) <= MAX_REPLACES
+            and all(isinstance(t, dict) and isinstance(t.get("members"), list)
+                    and all(isinstance(m, dict) and _valid_member(m) for m in t["members"])
+                    and isinstance(t.get("final_pad", True), bool) and t.get("how", HOWS[0]) in HOWS
+                    for t in then))
+
+
 def valid_case(case):
     if isinstance(case, dict) and "before" in case \
             and not (case.get("open") == "fileobj" and _valid_before(case["before"])):
+        return False
+    if isinstance(case, dict) and "then" in case \
+            and not (case.get("writer", "harness") == "harness" and _valid_then(case["then"])):
         return False
     return (isinstance(case, dict) and case.get("open") in ("fileobj", "filename")
             and case.get("writer", "harness") in ("harness", "ar")
@@ -338,43 +410,85 @@ def _first_difference(got, exp):
     return " - as byte strings they first differ at byte %d of the result" % k
 
 
-def _run_history(mem, ms, ops, labels, reopen):
+class _Obj(object):
+    """One member object handed out by the library, with its in-memory reference."""
+    __slots__ = ("m", "s", "data", "arno", "k", "gen", "opened", "closed")
+
+    def __init__(self, m, data, arno, k, gen):
+        self.m, self.s, self.data = m, io.BytesIO(data), data
+        self.arno, self.k, self.gen = arno, k, gen      # ArFile number (from 1), member index, archive number
+        self.opened = False     # a read-family call since the object was made / last closed
+        self.closed = False     # close() since the last read-family call
+
+
+def _run_history(archives, ops, labels, open_ar, install):
     """Apply ops to the real members and to BytesIO shadows; compare after every step.
 
-    mem: the member objects of the first ArFile; reopen(): opens a further ArFile on the same
-    archive, checks its listing and returns its member objects.  Every member object of every
-    ArFile has a shadow of its own.  Returns True when the history met the non-triviality rule's
-    second half.
+    archives: the member lists of the archive under test and of the ones that replace it ("then").
+    open_ar(g): opens a further ArFile on archive number g (the one in place), checks its listing and
+    returns its member objects.  install(g): puts archive g in the place of its predecessor and
+    returns True when that took the predecessor away from the objects made from it (filename mode:
+    they are then no longer used, nor asked anything).  Every member object of every ArFile has a
+    shadow of its own.  Returns True when the history met the non-triviality rule's second half.
     """
-    datas = [m["data"] for m in ms]
-    nm = len(datas)
-    mem = list(mem)
-    shadows = [io.BytesIO(d) for d in datas]
+    live = [_Obj(m, d["data"], 1, k, 0) for k, (m, d) in enumerate(zip(open_ar(0), archives[0]))]
+    narf = 1            # ArFiles opened so far
+    reopens = 0
+    cur = 0             # the archive now in place
+    several = False     # more than one ArFile so far?
     interesting = False
     touched_prev = None
-    closed = set()
     for step, op in enumerate(ops):
         kind = op[0]
         got = exp = None
         sit = None
-        i = None
-        before = len(mem)
-        if kind == "reopen":
-            if len(mem) // nm > MAX_REOPENS:
-                labels.add("reopen:skipped")
-                continue
-            if any(s.tell() for s in shadows):
-                labels.add("reopen-while-earlier-members-are-mid-file")
-            mem.extend(reopen())
-            shadows.extend(io.BytesIO(d) for d in datas)
-            labels.add("arfiles:%d" % (len(mem) // nm))
-            what = "step %d reopen (ArFile number %d on the same archive)" % (step, len(mem) // nm)
+        o = None
+        fresh = ()
+        if kind in ("reopen", "replace"):
+            if kind == "reopen":
+                if reopens >= MAX_REOPENS:
+                    labels.add("reopen:skipped")
+                    continue
+                reopens += 1
+                if any(x.s.tell() for x in live):
+                    labels.add("reopen-while-earlier-members-are-mid-file")
+                what = "step %d reopen (ArFile number %d, on the same archive)" % (step, narf + 1)
+            else:
+                if cur + 1 >= len(archives):
+                    labels.add("replace:skipped")
+                    continue
+                old = [x for x in live if x.gen == cur]
+                for x in old:
+                    labels.add("replace:an-old-member-is:" + (
+                        ("read-partly" if x.s.tell() < len(x.data) else "read-to-its-end") + ",not-closed"
+                        if x.opened else "closed-after-reading" if x.closed else "never-read"))
+                cur += 1
+                labels.add("replace:new-archive-has-%s-members" % (
+                    "as-many" if len(archives[cur]) == len(archives[cur - 1]) else "other-number-of"))
+                if [len(d["data"]) for d in archives[cur]] == [len(d["data"]) for d in archives[cur - 1]]:
+                    labels.add("replace:same-sizes-other-bytes"
+                               if [d["data"] for d in archives[cur]] != [d["data"] for d in archives[cur - 1]]
+                               else "replace:same-contents")
+                if install(cur):
+                    live = []       # their file is gone: not used and not asked anything from here on
+                    touched_prev = None
+                what = "step %d replace (ArFile number %d, on archive number %d in the same place)" % (
+                    step, narf + 1, cur + 1)
+            narf += 1
+            several = True
+            fresh = [_Obj(m, d["data"], narf, k, cur) for k, (m, d) in enumerate(zip(open_ar(cur), archives[cur]))]
+            live.extend(fresh)
+            labels.add("arfiles:%d" % narf)
         else:
-            i = op[1] % len(mem)
-            m, s, size = mem[i], shadows[i], len(datas[i % nm])
+            if not live:
+                labels.add("op-skipped:no-live-member")
+                continue
+            o = live[op[1] % len(live)]
+            m, s, size = o.m, o.s, len(o.data)
             start = s.tell()
-            what = "step %d %s on member %d%s (%d bytes, position %d)" % (
-                step, op, i % nm, " of ArFile number %d" % (i // nm + 1) if len(mem) > nm else "", size, start)
+            what = "step %d %s on member %d%s%s (%d bytes, position %d)" % (
+                step, op, o.k, " of ArFile number %d" % o.arno if several else "",
+                " (archive number %d in that place)" % (o.gen + 1) if o.gen else "", size, start)
         if kind == "read":
             if len(op) == 2:
                 got, exp = m.read(), s.read()
@@ -416,14 +530,16 @@ def _run_history(mem, ms, ops, labels, reopen):
                 labels.add("seek-beyond-end")
         elif kind == "close":
             m.close()
-            closed.add(i)
+            o.closed, o.opened = True, False
         labels.add("op:" + kind)
 
         if kind in ("read", "readline", "readlines"):
             sit = _situation(kind, start, size, exp)
-            if i in closed:
+            if o.closed:
                 labels.add("read-after-close")
-                closed.discard(i)
+            o.closed, o.opened = False, True
+            if o.gen:
+                labels.add("read-from-an-archive-that-replaced-another")
             if sit == "start-beyond-end":
                 labels.add("read-starts-beyond-end")
                 interesting = True
@@ -438,8 +554,10 @@ def _run_history(mem, ms, ops, labels, reopen):
                 longest = max(map(len, exp)) if kind == "readlines" else len(exp) if kind == "readline" else 0
                 if longest >= 4096:
                     labels.add("%s-line:%s" % (kind, _size_class(longest)))
-            if any(shadows[j].tell() != start for j in range(i % nm, len(mem), nm) if j != i):
+            if any(x.s.tell() != start for x in live if x is not o and x.gen == o.gen and x.k == o.k):
                 labels.add("same-member-of-another-arfile-at-another-position")
+            if any(x.gen != o.gen for x in live):
+                labels.add("read-while-objects-of-two-archives-are-live")
             ok = (type(got) is type(exp) and got == exp
                   and (kind != "readlines" or all(type(x) is bytes for x in got)))
             if not ok:
@@ -453,28 +571,31 @@ def _run_history(mem, ms, ops, labels, reopen):
             if type(got) is not int or got != exp:
                 raise Violation("tell", "%s returned %r, expected %r" % (what, got, exp))
 
-        for j, (mm, ss) in enumerate(zip(mem, shadows)):
-            tj, ej = mm.tell(), ss.tell()
+        for x in live:
+            tj, ej = x.m.tell(), x.s.tell()
             if tj == ej:
                 continue
-            who = "member %d%s" % (j % nm, " of ArFile number %d" % (j // nm + 1) if len(mem) > nm else "")
-            if kind == "reopen" and j >= before:
+            who = "member %d%s" % (x.k, " of ArFile number %d" % x.arno if several else "")
+            if any(x is f for f in fresh):
                 raise Violation("reopen:fresh-member-position", "%s: its %s starts at tell() = %r, "
                                 "an in-memory file starts at 0" % (what, who, tj))
-            if j != i:
-                sig = "isolation" if i is None or j // nm == i // nm else "isolation:between-arfiles"
+            if x is not o:
+                sig = ("isolation" if o is None or x.arno == o.arno else
+                       "isolation:between-arfiles" if x.gen == o.gen else "isolation:between-archives")
                 raise Violation(sig, "%s moved %s: tell() = %r, expected %r" % (what, who, tj, ej))
             fam = _family(kind)
             sig = "%s:%s" % (fam, sit) if sit else fam
             raise Violation(sig, "%s left tell() = %r, an in-memory file is at %r" % (what, tj, ej))
-        if i is None:
+        if o is None:
             continue
-        if touched_prev is not None and touched_prev != i and kind != "tell":
+        if touched_prev is not None and touched_prev is not o and kind != "tell":
             labels.add("interleaved-members")
-            if touched_prev // nm != i // nm:
+            if touched_prev.arno != o.arno:
                 labels.add("interleaved-arfiles")
+                if touched_prev.gen != o.gen:
+                    labels.add("interleaved-archives")
         if kind not in ("tell",):
-            touched_prev = i
+            touched_prev = o
     return interesting
 
 
@@ -498,18 +619,7 @@ def _before_bytes(parts, labels):
     return b"".join(out)
 
 
-def check(case):
-    if not valid_case(case):
-        return (False, ("invalid-case-skipped",))
-    ms = _members(case["members"])
-    padded = A.ar_archive_bytes(ms)
-    raw = A.ar_archive_bytes(ms, final_pad=case.get("final_pad", True))      # the archive under test
-    labels = set(["open:" + case["open"], "members:%s" % (len(ms) if len(ms) < 3 else "3+")])
-    before = _before_bytes(case.get("before", []), labels)
-    if case["open"] == "fileobj":
-        labels.add("archive-at-offset:" + ("0" if not before else
-                                           ("odd" if len(before) % 2 else "even")
-                                           + (",>=4KiB" if len(before) >= 4096 else "")))
+def _archive_labels(ms, raw, padded, labels):
     if ms and len(ms[-1]["data"]) % 2:
         labels.add("last-member-odd:final-pad-" + ("present" if raw == padded else "absent"))
         if raw != padded and len(ms[-1]["data"]) >= 4096:
@@ -531,12 +641,35 @@ def check(case):
         labels.add("style:" + m["style"])
         if len(m["name"]) >= 15:
             labels.add("name-fills-field")
+
+
+def check(case):
+    if not valid_case(case):
+        return (False, ("invalid-case-skipped",))
+    ms = _members(case["members"])
+    padded = A.ar_archive_bytes(ms)
+    raw = A.ar_archive_bytes(ms, final_pad=case.get("final_pad", True))      # the archive under test
+    labels = set(["open:" + case["open"], "members:%s" % (len(ms) if len(ms) < 3 else "3+")])
+    before = _before_bytes(case.get("before", []), labels)
+    if case["open"] == "fileobj":
+        labels.add("archive-at-offset:" + ("0" if not before else
+                                           ("odd" if len(before) % 2 else "even")
+                                           + (",>=4KiB" if len(before) >= 4096 else "")))
+    _archive_labels(ms, raw, padded, labels)
+    archives, raws, hows = [ms], [raw], [None]      # the archive under test and those that take its place
+    for t in case.get("then", []):
+        tms = _members(t["members"])
+        traw = A.ar_archive_bytes(tms, final_pad=t.get("final_pad", True))
+        _archive_labels(tms, traw, A.ar_archive_bytes(tms), labels)
+        archives.append(tms)
+        raws.append(traw)
+        hows.append(t.get("how", HOWS[0]))
     workdir = None
     mem = []            # every member object handed out in this case (for the cleanup)
     ars = []            # every ArFile opened in this case: all stay alive until the case ends
     try:
         if case["open"] == "filename" or case.get("writer") == "ar":
-            workdir = tempfile.mkdtemp(prefix="vcheck-c06-")
+            workdir = tempfile.mkdtemp(prefix="vcheck-c06-", dir=SCRATCH)
         if case.get("writer") == "ar":
             if A.AR_BIN is None:
                 labels.add("ar-binary:missing")
@@ -556,25 +689,38 @@ def check(case):
         if case["open"] == "filename":
             path = os.path.join(workdir, "case.a")
             with open(path, "wb") as f:
-                f.write(raw)
+                f.write(raws[0])
 
-        def open_and_list():
+        def install(g):
+            """Archive number g takes the place of its predecessor.  True: the predecessor is gone."""
+            if case["open"] != "filename":
+                return False        # a file object of its own; the earlier ones are left untouched
+            labels.add("replace:how:" + hows[g])
+            if hows[g] == "rename":             # written next to it, then moved over the old file
+                with open(path + ".new", "wb") as f:
+                    f.write(raws[g])
+                os.replace(path + ".new", path)
+            else:
+                if hows[g] == "unlink":         # the old file is removed, a new one made under its name
+                    os.unlink(path)
+                with open(path, "wb") as f:     # "rewrite": the same file, truncated and written anew
+                    f.write(raws[g])
+            return True
+
+        def open_and_list(g):
             if case["open"] == "filename":
                 ar = ArFile(filename=path)
             else:
-                f = io.BytesIO(before + raw)
+                f = io.BytesIO(before + raws[g])
                 f.seek(len(before))             # on the global header of the archive under test
                 ar = ArFile(fileobj=f)
             ars.append(ar)
-            new = _listing(ar, ms, labels)
+            new = _listing(ar, archives[g], labels)
             mem.extend(new)
             return new
 
-        first = open_and_list()
-        interesting = False
-        if first:
-            interesting = _run_history(first, ms, case["ops"], labels, open_and_list)
-        return (len(ms) >= 2 and interesting, sorted(labels))
+        interesting = _run_history(archives, case["ops"], labels, open_and_list, install)
+        return (max(map(len, archives)) >= 2 and interesting, sorted(labels))
     finally:
         for m in mem:
             try:
@@ -852,6 +998,90 @@ def enum_close_cases(plan):
 
 
 # ------------------------------------------------------------------------------------------
+# another archive takes the place of the one under test (same path / a further file object) while the
+# objects made from the first are alive: members never read, read partly and left open, closed
+
+REPLACE_FIRST = [["a", "a\nb"], ["b", "x\ny"]]
+REPLACE_THEN = [
+    [["a", "c\nd"], ["b", "z\nw"]],                      # same names, same sizes, other bytes
+    [["a", "Q"]],                                        # fewer members, smaller file
+    [["a", "a longer first\nmember"], ["b", "x\ny"]],    # member b as before, at another offset
+    [["c", ""], ["d", "12\n"], ["e", "x\ny"]],           # other names, more members; e = the old b, moved
+]
+REPLACE_BACK = [REPLACE_THEN[0], REPLACE_FIRST]          # ... and the first archive again after that
+
+
+def _replace_histories(shape, sizes, retire, alphabet):
+    """Every history of a shape over 'o' (one operation of the alphabet on any live member object),
+    'R' (a further ArFile on the archive in place) and 'X' (the next archive takes its place and is
+    opened; retire: the member objects made so far leave the live ones).  sizes: members per archive."""
+    live, cur, slots = sizes[0], 0, []
+    for ch in shape:
+        if ch == "X":
+            cur += 1
+            live = sizes[cur] + (0 if retire else live)
+            slots.append([["replace"]])
+        elif ch == "R":
+            live += sizes[cur]
+            slots.append([["reopen"]])
+        else:
+            slots.append([[o[0], i] + o[1:] for i in range(live) for o in alphabet])
+    for seq in itertools.product(*slots):
+        yield [list(o) for o in seq]
+
+
+def enum_replace_cases(plan):
+    """plan: list of (open mode, hows, lists of replacing archives, shapes, alphabet)."""
+    def gen():
+        members = [_enum_member(n, d) for n, d in REPLACE_FIRST]
+        for mode, hows, thens, shapes, alphabet in plan:
+            for then in thens:
+                then = [[_enum_member(n, d) for n, d in t] for t in then]
+                sizes = [len(members)] + [len(t) for t in then]
+                for how in hows:
+                    for shape in shapes:
+                        for ops in _replace_histories(shape, sizes, mode == "filename", alphabet):
+                            yield {"open": mode, "members": members, "ops": ops,
+                                   "then": [dict({"members": t}, **({"how": how} if how else {})) for t in then]}
+    return gen
+
+
+_ONE = [[t] for t in REPLACE_THEN]
+REPLACE_QUICK = [
+    ("filename", ("unlink",), _ONE, ("X", "Xo", "oX", "oXo"), ENUM_OPS),
+    ("filename", ("rename", "rewrite"), _ONE, ("Xo", "oXo", "ooXo", "oXoo"), CLOSE_OPS),
+    ("filename", HOWS, [REPLACE_BACK], ("XX", "XoXo", "oXoXo", "oRXo", "oXRo"), CLOSE_OPS),
+    ("fileobj", (None,), _ONE, ("X", "Xo", "oX", "oXo"), ENUM_OPS),
+    ("fileobj", (None,), [REPLACE_BACK], ("oXoXo", "oRXo", "oXRo"), CLOSE_OPS),
+]
+REPLACE_THOROUGH = [
+    ("filename", HOWS, _ONE, ("X", "Xo", "oX", "oXo"), ENUM_OPS),
+    ("filename", ("unlink",), _ONE[:1] + _ONE[2:3], ("ooXo", "oXoo"), ENUM_OPS),
+    ("filename", ("rename", "rewrite"), _ONE, ("ooXo", "oXoo", "ooXoo"), CLOSE_OPS),
+    ("filename", HOWS, [REPLACE_BACK], ("XX", "XoXo", "oXoXo", "ooXoXo", "oRXo", "oXRo", "oRoXoo"), CLOSE_OPS),
+    ("fileobj", (None,), _ONE, ("X", "Xo", "oX", "oXo"), ENUM_OPS),
+    ("fileobj", (None,), _ONE[:1] + _ONE[2:3], ("ooXo",), ENUM_OPS),
+    ("fileobj", (None,), [REPLACE_BACK], ("oXoXo", "oRXo", "oXRo"), CLOSE_OPS),
+]
+EXHAUSTIVE_REPLACE = {
+    "quick": "archive ['a\\nb', 'x\\ny'] replaced by each of 4 others (same names and sizes with other bytes; one "
+             "1-byte member; a longer first member before the same second; 3 members of other names) x all "
+             "histories of the shapes X, Xo, oX, oXo - X = the other archive is put in its place and opened, o = one "
+             "of the 14 operations on any live member object (filename mode, file unlinked and written anew: the 2 "
+             "of the first archive, after X the members of the new one; fileobj mode: all of them); filename mode "
+             "with the file replaced by rename / rewritten in place x the shapes Xo, oXo, ooXo, oXoo over read(1), "
+             "readline(), close(); the chain first -> same-sizes-other-bytes -> first again x the shapes XX, XoXo, "
+             "oXoXo, oRXo, oXRo (R = a further ArFile on the archive in place) over read(1), readline(), close(), "
+             "x the 3 ways of replacing the file (fileobj mode: oXoXo, oRXo, oXRo)",
+    "thorough": "the same 4 replacing archives x the shapes X, Xo, oX, oXo over the 14 operations x unlink / rename / "
+                "rewrite in place (filename mode) and fileobj mode; ooXo (filename, unlink: also oXoo) over the 14 "
+                "operations for 2 of them; rename / rewrite x ooXo, oXoo, ooXoo over read(1), readline(), close(); "
+                "the chain first -> same-sizes-other-bytes -> first x XX, XoXo, oXoXo, ooXoXo, oRXo, oXRo, oRoXoo "
+                "over these 3 operations",
+}
+
+
+# ------------------------------------------------------------------------------------------
 # big members: contents and positions around multiples of a block size B, for every power of two
 # B from 4 KiB to 1 MiB (buffer and block sizes a reader may work with), x a fixed set of histories
 
@@ -909,6 +1139,9 @@ def big_histories(B):
         [["readlines", 0, B], ["tell", 0], ["readlines", 0, B + 1], ["readlines", 1, 2], ["readlines", 0, -1]],
         [["seek", 0, 0, 3], ["readlines", 0, 1], ["readlines", 0, 2 * B - 1], ["readlines", 0, None],
          ["seek", 0, 0, B], ["readlines", 0, 0]],
+        # another archive in its place (case key "then"), the big member having been read up to a block end
+        [["read", 0, B], ["readline", 1], ["replace"], ["read", 0, B + 1], ["readlines", 1], ["readlines", 0],
+         ["replace"], ["readline", 1], ["readlines", 0]],
     ]
 
 
@@ -918,9 +1151,14 @@ def big_cases(blocks, modes):
             for _label, pieces in big_contents(B):
                 members = [dict(_enum_member("big", ""), gen=pieces), _enum_member("b", "x\ny")]
                 del members[0]["data"]
+                then = [{"members": [_other_bytes(m, 0) for m in members], "how": "unlink"},
+                        {"members": members[::-1], "how": "rename"}]
                 for mode in modes:
                     for ops in big_histories(B):
-                        yield {"open": mode, "members": members, "ops": ops}
+                        case = {"open": mode, "members": members, "ops": ops}
+                        if ["replace"] in ops:
+                            case["then"] = then
+                        yield case
                 # the big member as the LAST one, the file ending with its last byte (no pad byte)
                 if sum(A.piece_size(p) for p in pieces) % 2:
                     for mode in modes:
@@ -980,6 +1218,7 @@ op_st = st.one_of(
     st.tuples(st.just("tell"), idx_st),
     st.tuples(st.just("close"), idx_st),
     st.tuples(st.just("reopen")),
+    st.tuples(st.just("replace")),
 )
 ops_st = st.lists(op_st, min_size=1, max_size=25)
 
@@ -997,7 +1236,39 @@ def _settle_final_pad(case):
         case["final_pad"] = False
     if "before" in case and (not case["before"] or case["open"] != "fileobj"):
         del case["before"]
+    then = []
+    for t in case.pop("then", []):
+        if not isinstance(t, dict):
+            # the archive before it once more, every member's bytes changed, all sizes and names kept
+            prev = then[-1] if then else case
+            t = {"members": [_other_bytes(m, t[1]) for m in prev["members"]], "how": t[2], "omit_final_pad": False}
+            if prev.get("final_pad") is False:
+                t["final_pad"] = False
+        if t.pop("omit_final_pad") and t["members"] and _member_size(t["members"][-1]) % 2:
+            t["final_pad"] = False
+        then.append(t)
+    if then:
+        case["then"] = then
     return case
+
+
+def _other_bytes(member, how):
+    """The member with other contents of the same size (see _other_text; seeded pieces: another seed)."""
+    m = dict(member)
+    if "gen" in m:
+        m["gen"] = [[p[0], (p[1] + 1 + how) % 10, p[2]] if p[0] in ("line", "noise") else
+                    [p[0], _other_text(p[1], how)] + list(p[2:]) for p in m["gen"]]
+    else:
+        m["data"] = _other_text(m["data"], how)
+    return m
+
+
+def _other_text(text, how):
+    """Every byte replaced by another one.  how 0: the newlines stay where they are and no new ones
+    appear (same lines, other bytes); how 1: newlines become 'a' and 'a' newlines (other lines)."""
+    if how:
+        return "".join(chr(ord(c) ^ 0x6b) for c in text)
+    return "".join(c if c == "\n" else "\x0b" if c == "\t" else chr((ord(c) + 1) % 256) for c in text)
 
 
 # what may precede the archive in the file object: nothing (half of the draws), bytes, whole archives
@@ -1009,6 +1280,16 @@ before_part_st = st.one_of(
 before_st = st.one_of(st.just([]), st.lists(before_part_st, min_size=1, max_size=2))
 
 
+def then_st(members):
+    """The archives that take the place of the first one: none (half of the draws) or 1..2, each either
+    drawn afresh or the archive before it with all sizes kept and all bytes changed."""
+    how = st.sampled_from(HOWS)
+    entry = st.one_of(
+        st.fixed_dictionaries({"members": members, "how": how, "omit_final_pad": st.booleans()}),
+        st.tuples(st.just("same-sizes"), st.sampled_from([0, 1]), how))
+    return st.one_of(st.just([]), st.lists(entry, min_size=1, max_size=2))
+
+
 def case_st(writer="harness"):
     mst = member_st if writer == "harness" else plain_member_st
     members = st.one_of(st.lists(mst, min_size=0, max_size=5), st.lists(mst, min_size=2, max_size=5))
@@ -1018,6 +1299,7 @@ def case_st(writer="harness"):
         return st.fixed_dictionaries(fixed)
     fixed["omit_final_pad"] = st.booleans()
     fixed["before"] = before_st
+    fixed["then"] = then_st(st.lists(mst, max_size=3))
     return st.fixed_dictionaries(fixed).map(_settle_final_pad)
 
 
@@ -1073,6 +1355,7 @@ big_case_st = st.fixed_dictionaries({
     "ops": st.lists(big_op_st, min_size=1, max_size=12),
     "omit_final_pad": st.booleans(),
     "before": big_before_st,
+    "then": then_st(st.lists(st.one_of(member_st, big_member_st), max_size=2)),
 }).map(_settle_final_pad)
 
 
@@ -1094,6 +1377,7 @@ def sources(tier):
                 Enum("no-final-pad", enum_final_pad_cases(FINAL_PAD_QUICK), EXHAUSTIVE_FINAL_PAD["quick"]),
                 Enum("close-x-siblings", enum_close_cases(CLOSE_QUICK), EXHAUSTIVE_CLOSE["quick"]),
                 Enum("one-reopen", enum_reopen_cases(REOPEN_QUICK), EXHAUSTIVE_REOPEN["quick"]),
+                Enum("replaced-archive", enum_replace_cases(REPLACE_QUICK), EXHAUSTIVE_REPLACE["quick"]),
                 Enum("histories<=3", enum_cases(ENUM_QUICK), EXHAUSTIVE["quick"])]
     return [Custom("externals", externals_phase, shards=1),
             Hyp("ar-binary", case_st("ar"), 150, shards=4),
@@ -1106,4 +1390,5 @@ def sources(tier):
             Enum("no-final-pad", enum_final_pad_cases(FINAL_PAD_THOROUGH), EXHAUSTIVE_FINAL_PAD["thorough"]),
             Enum("close-x-siblings", enum_close_cases(CLOSE_THOROUGH), EXHAUSTIVE_CLOSE["thorough"]),
             Enum("one-reopen", enum_reopen_cases(REOPEN_THOROUGH), EXHAUSTIVE_REOPEN["thorough"]),
+            Enum("replaced-archive", enum_replace_cases(REPLACE_THOROUGH), EXHAUSTIVE_REPLACE["thorough"]),
             Enum("histories<=4", enum_cases(ENUM_THOROUGH), EXHAUSTIVE["thorough"])]
